@@ -1108,13 +1108,15 @@ class ChannelFileRead(ChannelFile):
 
     def readline(self) -> str:
         if self._buffer is not None:
-            i = self._buffer.find("\n")
+            # the channel may carry bytes items (e.g. ProxyIO), not only str
+            newline = b"\n" if isinstance(self._buffer, bytes) else "\n"
+            i = self._buffer.find(newline)  # type: ignore[arg-type]
             if i != -1:
                 return self.read(i + 1)
             line = self.read(len(self._buffer) + 1)
         else:
             line = self.read(1)
-        while line and line[-1] != "\n":
+        while line and line[-1:] not in ("\n", b"\n"):
             c = self.read(1)
             if not c:
                 break
